@@ -56,6 +56,7 @@ theorem applyFrame_carriesGo (idx : Nat) (f : Frame) (cjs : Bool) {e : GoErr} {f
             JsVal.key, JsKey.isGoErrorInstance]
       | ja => simp [Frame.swallows] at hsw
       | fcs => simp [Frame.swallows] at hsw
+      | jiu => simp [Frame.swallows] at hsw
       | rfw => simp [Frame.rewraps] at hrw
       | _ =>
         cases cjs <;>
@@ -77,6 +78,7 @@ theorem applyFrame_carriesGo (idx : Nat) (f : Frame) (cjs : Bool) {e : GoErr} {f
             JsVal.key, JsKey.isGoErrorInstance]
       | ja => simp [Frame.swallows] at hsw
       | fcs => simp [Frame.swallows] at hsw
+      | jiu => simp [Frame.swallows] at hsw
       | rfw => simp [Frame.rewraps] at hrw
       | _ =>
         cases cjs <;>
@@ -453,9 +455,11 @@ theorem applyFrame_exact (idx : Nat) (f : Frame) (cjs : Bool) {ex0 : Exc} {fl : 
           exceptionFromValue, wrapJSFuncE, returnErr, wrapReflectErr, hu, Exact]
     · simp [Frame.unwraps] at hu
   | fcv => simp [Frame.rethrows] at hr
+  | jgt => simp [Frame.rethrows] at hr
   | rfw => simp [Frame.rewraps] at hrw
   | ja => simp [Frame.swallows] at hsw
   | fcs => simp [Frame.swallows] at hsw
+  | jiu => simp [Frame.swallows] at hsw
   | _ =>
     cases cjs <;>
       simp [applyFrame, applyFrameCore, callable, invoke, jsCall, runWrapped, vmTry, handleThrow, handleThrowLoop,
@@ -659,6 +663,7 @@ def stepTop (i : Nat) (f : Frame) (v : JsVal) (t : StackTop) : StackTop :=
   match f with
   | .js k => if k.rethrows then (throwExec (.rethrow i) v).top else t
   | .fcv => nativeTop v
+  | .jgt => genThrowTop i v
   | _ => t
 
 /-- Spec: the site where the exception the host sees was raised LAST (frames listed outermost first). -/
@@ -694,6 +699,7 @@ theorem applyFrame_topIs (idx : Nat) (f : Frame) (cjs : Bool) {v : JsVal} {t : S
       · simp [Frame.unwraps] at hu
     | ja => simp [Frame.swallows] at hsw
     | fcs => simp [Frame.swallows] at hsw
+    | jiu => simp [Frame.swallows] at hsw
     | rfw => simp [Frame.rewraps] at hrw
     | _ =>
       cases cjs <;>
@@ -715,6 +721,7 @@ theorem applyFrame_topIs (idx : Nat) (f : Frame) (cjs : Bool) {v : JsVal} {t : S
       · simp [Frame.unwraps] at hu
     | ja => simp [Frame.swallows] at hsw
     | fcs => simp [Frame.swallows] at hsw
+    | jiu => simp [Frame.swallows] at hsw
     | rfw => simp [Frame.rewraps] at hrw
     | _ =>
       cases cjs <;>
